@@ -137,6 +137,8 @@ def pat_key(p):
         return "(" + ", ".join(pat_key(q) for q in p["pats"]) + ")"
     if k == "Slice":
         return "[..]"
+    if k == "Range":
+        return "%s..%s%s" % (p.get("lo", ""), "=" if p.get("end") == "Included" and "hi" in p else "", p.get("hi", ""))
     return "?" + str(k)
 
 
